@@ -271,7 +271,12 @@ func (o *oidcHandler) redirectToIDP(ctx context.Context, log telemetry.Logger,
 		"code_challenge":        []string{oauth2.S256ChallengeFromVerifier(codeVerifier)},
 		"code_challenge_method": []string{"S256"},
 	}
-	redirectURL := o.config.GetAuthorizationUri() + "?" + query.Encode()
+	// the authorization endpoint may carry a query of its own, which must be retained
+	separator := "?"
+	if strings.Contains(o.config.GetAuthorizationUri(), "?") {
+		separator = "&"
+	}
+	redirectURL := o.config.GetAuthorizationUri() + separator + query.Encode()
 
 	// Generate denied response with redirect headers
 	deny := newDenyResponse()
